@@ -191,6 +191,13 @@ class Check:
 
     def _run_one(self, case: Any, tier: str) -> CaseResult:
         res = CaseResult()
+        # environment diversity: a case may ask for a process time zone ("tz": POSIX TZ string, no tzdata needed)
+        tz = case.get("tz") if isinstance(case, dict) else None
+        old_tz = os.environ.get("TZ")
+        if tz:
+            import time as _time
+            os.environ["TZ"] = tz
+            _time.tzset()
         try:
             self.run_case(case, res, tier)
         except BaseException as e:  # harness failure: never a verdict
@@ -198,6 +205,14 @@ class Check:
                 f"harness exception in case {stable_hash(case)}: {type(e).__name__}: {e}\n"
                 + traceback.format_exc()[-1500:]
             )
+        finally:
+            if tz:
+                import time as _time
+                if old_tz is None:
+                    os.environ.pop("TZ", None)
+                else:
+                    os.environ["TZ"] = old_tz
+                _time.tzset()
         if res.evals == 0:
             res.evals = 1
         return res
